@@ -187,7 +187,9 @@ func (v *IndexVamana) insertUpdateDelete(ctx context.Context, pointQueue <-chan 
 	 * the same cache. As opposed to multiple requests queuing to get access
 	 * to the shared cache. Internal concurrency (workers) vs external
 	 * concurrency (user requests). */
-	numWorkers := runtime.NumCPU() - 1 // We leave 1 core for the main thread
+	// We leave 1 core for the main thread, but somebody has to take the points
+	// off the queue on a single core as well
+	numWorkers := max(1, runtime.NumCPU()-1)
 	errCs := make([]<-chan error, numWorkers+1)
 	// ---------------------------
 	for i := 0; i < numWorkers; i++ {
